@@ -104,7 +104,8 @@ def handlePhase (st : DState) (op : String) (j : Json) : Except String (Ledger √
       | _ => pure []
     let probe : Bool ‚Üê optField j "probe" false
     let (ledger', lv) := if probe then (st.ledger, []) else st.ledger.phase pre post evs
-    let mon := monitorAll env post ++ viol04 cap post ++ viol04Step pre post ++ viol05Step isEl pre post evs ++ single ++ lv
+    let fifo := if op == "update" then viol18Step env pre post else []
+    let mon := monitorAll env post ++ viol04 cap post ++ viol04Step pre post ++ viol05Step isEl pre post evs ++ single ++ lv ++ fifo
     pure (ledger', Json.mkObj [("diff", strs d), ("mon", strs mon)])
 
 /-- function-level record: `traverse(route, dt)` -/
